@@ -117,9 +117,7 @@ def htslib_cases(ctx, work):
             ctx.sample({"kind": kind, "min_shift": ms, "records": len(spec["records"]), "names": names, "counts": got}, limit=3)
             # old-style index: same index re-serialised without pseudo-bins and without n_no_coor
             old_style(ctx, ik, expect, work, k)
-            if ik == "csi" and k < 3:
-                malformed(ctx, ik, data, work)
-            if ik == "tbi" and k < 2:
+            if (ik == "csi" and k < 3) or (ik == "tbi" and k < 2) or (ctx.thorough and k < 12):
                 malformed(ctx, ik, data, work)
 
 
@@ -162,7 +160,7 @@ def synthetic_cases(ctx, work):
         return
     rng = ctx.rng
     U64 = 2**64
-    for k in range(120 if ctx.thorough else 40):
+    for k in range(600 if ctx.thorough else 40):
         depth = rng.choice([0, 1, 3, 5, 8])
         pseudo = ((1 << ((depth + 1) * 3)) - 1) // 7 + 1
         nref = rng.choice([0, 1, 2, 5])
